@@ -40,7 +40,9 @@ this prelude, on every run. What is *assumed* about Go here (the translator's se
   `[]string` with constant elements is its value;
 * `float64` is an abstract carrier `φ` with the operations the Go code performs (`FloatI`; nothing assumed of them);
   a `*rand.Rand` is the list of the draws it will return (`rngFloat64`; asking for more than were supplied is a fuel
-  fault); `time.Now()` / `time.Since(t)` read the parameter `now` of the translated function (one reading per call).
+  fault); `time.Now()` / `time.Since(t)` read the parameter `now` of the translated function (one reading per call);
+* an `interface{}` is an `AnyV` (nil, a `[]byte`, a `string`, or some other dynamic type); `json.Unmarshal(data, &s)` into
+  a string is the parameter `jsonDecode` of the translated function (what it decodes, `none` = an error).
 -/
 namespace GoSSE.GoRT
 open GoSSE
@@ -166,6 +168,21 @@ def rngFloat64 {φ : Type} (rng : List φ) : GoM (φ × List φ) :=
   match rng with
   | x :: rest => pure (x, rest)
   | [] => throw .fuel
+
+/-- An `interface{}` value as the translated code can tell it apart: nil, a `[]byte`, a `string`, or a value of some
+other dynamic type (a type switch with other cases stops the translator) -/
+inductive AnyV
+  | nil
+  | bytes (b : Bytes)
+  | str (s : Bytes)
+  | other
+deriving DecidableEq, Repr, Inhabited
+
+def anyIsNil : AnyV → Bool | .nil => true | _ => false
+def anyIsBytes : AnyV → Bool | .bytes _ => true | _ => false
+def anyIsStr : AnyV → Bool | .str _ => true | _ => false
+def anyBytes : AnyV → Bytes | .bytes b => b | _ => []
+def anyStr : AnyV → Bytes | .str s => s | _ => []
 
 /-- The field source of event.go (`*parser.Parser`, which is not translated: the split wrapper `parser.New` installs
 writes to the parser from inside `bufio.Scanner.Scan`): a state, what `Next(&f)` answers — whether there is a field,
